@@ -80,7 +80,9 @@ def check(pm: ProgramModel, ctx: Ctx) -> None:
     # ATTRIBUTES --------------------------------------------------------------------------------------
     values = {"none": None, "bool": True, "false": False, "int": 7, "zero": 0, "zero-float": 0.0,
               "empty-str": "", "empty-list": [], "empty-map": {}, "float": 2.5, "str": "text",
-              "list": [1, "a", True], "map": {"k": 1, "nested": {"x": False}}, "unicode": "añ"}
+              "list": [1, "a", True], "map": {"k": 1, "nested": {"x": False}}, "unicode": "añ",
+              "str-true": "true", "str-False": "False", "str-number": "10", "str-null": "null", "str-float": "2.5",
+              "float-integral": 6.0, "list-of-str-bools": ["True", "false"]}
     for vk, v in values.items():
         root = mb.feature("Root")
         a = mb.feature("A")
